@@ -66,6 +66,8 @@ func main() {
 			r.Count("race.plans", 1)
 			_ = os.RemoveAll(dir)
 		})
+		r.Floor("announce.request-follows-head", 40)
+		r.Floor("announce.probes.ahead-1", 15)
 		r.Floor("race.plans", int64(racePlans))
 	} else {
 		r.Inconclusive("vnode-race binary missing")
